@@ -5,6 +5,7 @@ open SteelVerif.C02
 #print axioms inline_twice_preserves
 #print axioms fold_preserves
 #print axioms inline_then_fold_preserves
+#print axioms inline_needs_arity_check
 #print axioms tier_transparent
 #print axioms tier_hypothesis_needed
 #print axioms tier_hypothesis_needed_error
